@@ -99,6 +99,19 @@ CHECKS["C17"] = {
     "technique": "TLA+ spec + TLC exhaustive enumeration; relational and exact replay into the real library",
 }
 
+CHECKS["C08"] = {
+    "text": "spec/Grid.tla: integer grid geometry, exact rational bilinear interpolation with clamped cell and linear continuation, containment with margin, first-hit / margin / null selection over grids= lists with @optional and @null in every position, NTv2 deepest-sub-grid walk, operator conventions. TLC checks node reproduction, corner range, edge continuity, linearity through the margin, first hit, deepest sub-grid independent of file order, continuity of consistent trees. Every scenario is encoded, decoded by the real readers and queried through Grid::at / grids_at and gridshift / deformation / deflection in a harness Context.",
+    "design_ref": "DESIGN.md §5.8",
+    "note": "rows, cols 2..4; lists <= 3 over three overlapping grids; trees <= 4 sub-grids; eighth-cell lattice (margin edge excluded); 1e-6 of the largest node value for angular grids, exact for projected grids; exclusions (NTv2 upper borders, ambiguous @null readings, deflection sign) as in evidence.assumptions.",
+    "technique": "TLA+ spec + TLC exhaustive enumeration; behaviours replayed into the real decoders and operators",
+}
+CHECKS["C15"] = {
+    "text": "spec/GridFile.tla: layout relation abstract grid <-> Gravsoft text (4 layouts) / NTv2 records (both byte orders, any sub-grid order); TLC checks Decode(Encode(g)) = g, layout and order independence, and totality of the documented decode rule over every enumerated fault (every truncation length, every header bit, Corrupt(field, class) table). The harness encoder is checked byte for byte against the specification; every fault, also on the shipped files, is applied to the bytes, decoded by the real readers and queried under catch_unwind in a memory-limited, watchdog-supervised child.",
+    "design_ref": "DESIGN.md §5.15",
+    "note": "generated files <= 672 bytes; quick: 6 generated plus 7 small shipped files (26 k faults); thorough: all generated, 100800401.gsb all lengths, the 2.8 MB deformation grid with 5 350 driver-enumerated faults. Only 'Err or safely queryable' is required of a damaged file.",
+    "technique": "TLA+ spec + TLC enumeration of files and faults; replay into the real decoders in an isolated process",
+}
+
 _claimed = set(CHECKS)
 _NA_FIXED = {
     "C05": NA_REASON_NUMERIC,
